@@ -36,6 +36,8 @@ def make_data(c):
         if not cols.any():
             cols[int(g.integers(p))] = True
         X[t:t + L, cols] += g.normal(scale=8 * c["sd"], size=int(cols.sum())) + 6 * c["sd"]
+    if c.get("f32"):  # values that are exact in single precision
+        X = np.round(X * 64) / 64
     return X
 
 
@@ -52,7 +54,7 @@ def _gaps(c, Z):
 def at_floor(c, *datasets):
     """Gaussian costs are only claimed invariant above the 1e-16 variance floor"""
     uses_gauss = "gvar" in c.get("scorer", "") or c.get("cost") == "gvar"
-    if not uses_gauss:
+    if not uses_gauss or c.get("f32"):  # single-precision cases: judged on the windows actually scored (impl_scorer)
         return False
     for Z in datasets:
         d = _gaps(c, Z)  # window variances are bounded below by ~0.2 x the squared smallest adjacent difference; 1e-13 leaves three orders of margin
@@ -84,7 +86,8 @@ def transform(c, X):
         perm = g.permutation(c["p"])
         return X[:, perm], {"perm": [int(v) for v in perm]}
     if sym == "shift":
-        return X + g.choice([-7.5, 3.25, 11.0], size=c["p"]) * max(c["sd"], 1e-3) * 3, {}
+        # (a level of several thousand spreads for single-precision input: squares no longer fit 24 bits)
+        return X + g.choice([-7.5, 3.25, 11.0], size=c["p"]) * max(c["sd"], 1e-3) * (24 if c.get("f32") else 3), {}
     if sym == "scale":
         return X * float(g.choice([0.5, 3.0, 10.0, 1000.0])), {}
     return X[::-1].copy(), {}
@@ -95,6 +98,9 @@ def gen_case(rng, kind):
     p = rng.randint(2, 4) if sym == "perm" else rng.randint(1, 3)
     c = {"kind": kind, "sym": sym, "n": rng.randint(16, 48), "p": p, "seed": rng.randint(0, 10**6),
          "sd": rng.choice([1.0, 1.0, 2e-5, 30.0]) if sym == "scale" else 1.0, "nchg": rng.randint(0, 2), "nanom": rng.randint(0, 2)}
+    # single-precision input holding exactly representable values (shift / permutation / reversal keep them exact): the
+    # arithmetic on them is still expected in double precision
+    c["f32"] = kind == "scorer" and sym != "scale" and rng.random() < 0.2
     if kind == "scorer":
         c["scorer"] = rng.choice(["l2", "gvar", "gcov", "cusum", "l2saving", "chg-l2", "chg-gvar", "loc-l2", "loc-gvar"])
         if sym == "scale":
@@ -126,6 +132,26 @@ def mk_scorer(name):
             "loc-l2": lambda: LocalAnomalyScore(L2Cost()), "loc-gvar": lambda: LocalAnomalyScore(GaussianVarCost())}[name]()
 
 
+def windows_of(q):
+    """the row sets a cut is scored on: contiguous parts, the whole, and for 4-point cuts the pooled surroundings"""
+    if len(q) == 2:
+        return [[(q[0], q[1])]]
+    if len(q) == 3:
+        return [[(q[0], q[1])], [(q[1], q[2])], [(q[0], q[2])]]
+    return [[(q[1], q[2])], [(q[0], q[3])], [(q[0], q[1]), (q[2], q[3])]]
+
+
+def min_window_var(Z, cuts):
+    """smallest per-column variance over the windows actually scored"""
+    best = np.inf
+    for q in cuts:
+        for parts in windows_of(q):
+            rows = np.concatenate([Z[a:b] for a, b in parts])
+            if len(rows) >= 2:
+                best = min(best, float(rows.astype(float).var(axis=0).min()))
+    return best
+
+
 def scorer_cuts(c, sc):
     """batches of cuts: a random one and, for 3-point cuts, a pure equal-length batch whose first
     split is centred while the others are not"""
@@ -151,18 +177,45 @@ def impl_scorer(c):
     if at_floor(c, X, Y):
         return {"outcome": "skip:variance-at-floor"}
     try:
+        # the SAME scorer object is re-used on the transformed data in a third of the cases, and the transformed data are then
+        # a view of / the very array the scorer already holds (reversed view, in-place shift or scale): nothing remembered
+        # about the earlier fit may survive
+        reuse = core._bits(c, 4, 3) == 0
+        if c.get("f32"):
+            X, Y = X.astype(np.float32), Y.astype(np.float32)
+        X0 = X.copy()
         a = mk_scorer(c["scorer"]).fit(X)
         batches = scorer_cuts(c, a)
         if not batches:
             return {"outcome": "skip:no-cuts"}
-        b = mk_scorer(c["scorer"]).fit(Y)
         cuts, va, vb = [], [], []
         for bt in batches:
             va += a.evaluate(np.array(bt)).tolist()
+            cuts += bt
+        if reuse:
+            if c["sym"] == "reverse":
+                Yv = X[::-1]  # a view
+            elif c["sym"] in ("shift", "scale"):
+                X[...] = Y  # in place: the held array now contains the transformed data
+                Yv = X
+            else:
+                Yv = Y
+            b = a.fit(Yv)
+        else:
+            b = mk_scorer(c["scorer"]).fit(Y)
+        for bt in batches:
             cb = [tuple(n - v for v in reversed(q)) for q in bt] if c["sym"] == "reverse" else bt
             vb += b.evaluate(np.array(cb)).tolist()
-            cuts += bt
+        X = X0
         gerr = gauss_log_error(c, X, Y)
+        if c.get("f32") and gerr > 0:
+            # the generic bound assumes the worst 2-point window; here the windows actually scored are known
+            Yc = Y.astype(float)
+            Yw = [tuple(n - v for v in reversed(q)) for q in cuts] if c["sym"] == "reverse" else cuts
+            vmin = min(min_window_var(X0.astype(float), cuts), min_window_var(Yc, Yw))
+            if vmin < 1e-3:
+                return {"outcome": "skip:variance-at-floor"}
+            gerr = 2.2e-16 * n * float(max(np.abs(X0).max(), np.abs(Yc).max())) ** 2 / vmin
         if 200 * n * gerr > 1e-3:
             return {"outcome": "skip:ill-conditioned-variance"}
         return {"outcome": "ok", "cuts": cuts, "a": va, "b": vb, "info": info, "gerr": gerr,
